@@ -137,6 +137,34 @@ class CFG:
         nid = node["id"] if isinstance(node, dict) else node
         return self.search("entry", targets=[nid]) is not None
 
+    def loop_header(self, loop):
+        """(header block id, body successor block id) of a for/while statement node."""
+        for bid, blk in self.blocks.items():
+            if blk.get("term") == loop["id"] and len(self.succs(bid, True)) == 2:
+                s0 = blk["succ"][0]
+                return bid, (s0 if s0 is not None and s0 >= 0 else None)
+        return None, None
+
+    def iteration_can_skip(self, loop, ids):
+        """Witness path through one iteration of `loop` (body entry -> next evaluation of the condition, or leaving
+        the function) that passes none of the elements `ids`; None if every iteration passes one of them.
+        (Leaving the loop with `break` is reported too.)"""
+        from .astq import strip
+        hdr, body = self.loop_header(loop)
+        if hdr is None or body is None:
+            raise AnalysisBroken("cannot locate the header of the loop at line %s in %s" % (loop.get("l"), self.fn.key))
+        cond = strip(loop["cond"]) if loop.get("cond") is not None else None
+        targets = [cond["id"]] if cond is not None and cond.get("id") in self.pos else []
+        # the first element of the header block also marks "next iteration"
+        for e in self.blocks[hdr]["el"]:
+            if isinstance(e, int) and e != -1:
+                targets.append(e)
+                break
+        w = self.search([(body, 0)], blocked=ids, targets=targets)
+        if w is None:
+            w = self.search([(body, 0)], blocked=list(ids) + targets, to_exit=True)
+        return w
+
     def describe(self, path):
         """Render a block path as source lines."""
         out = []
